@@ -125,7 +125,8 @@ func runPipeT[V any](p pipeProg, rng *Rng, choices []int, conv func(int) V, back
 			}
 		})
 	}
-	res.status = s.run(3000)
+	// every value costs a bounded number of synchronisation steps per queue it passes through
+	res.status = s.run(400 + 60*(len(p.Input)+2)*(p.Fan+2))
 	if res.status == "done" {
 		done := make(chan struct{})
 		go func() { grp.Wait(); close(done) }()
